@@ -100,6 +100,7 @@ class Waiting(process_states.Waiting):
         keys = self._awaiting.pop(awaitable)
         key = keys[0]
         self._replace_cancelled_wait()
+        failure: Optional[BaseException] = None
         try:
             result = awaitable.result()
             for key in keys:
@@ -107,12 +108,18 @@ class Waiting(process_states.Waiting):
         except asyncio.CancelledError:
             # A cancelled awaitable counts as failed.  asyncio's ``CancelledError`` is not an ``Exception`` (raising it
             # in the stepping task would cancel that task) so it is passed on as the regular ``CancelledError``
-            self._waiting_future.set_exception(futures.CancelledError(f"the awaitable for context key '{key}' was cancelled"))
+            failure = futures.CancelledError(f"the awaitable for context key '{key}' was cancelled")
         except Exception as exception:
-            self._waiting_future.set_exception(exception)
-        else:
-            if not self._awaiting:
-                self._waiting_future.set_result(lang.NULL)
+            failure = exception
+
+        if self._waiting_future.done():
+            # The wait is over already (an awaitable that failed before this one ended it): the first failure counts
+            return
+
+        if failure is not None:
+            self._waiting_future.set_exception(failure)
+        elif not self._awaiting:
+            self._waiting_future.set_result(lang.NULL)
 
 
 class WorkChain(mixins.ContextMixin, processes.Process):
